@@ -16,7 +16,8 @@ the change, the demo fails with it) before being kept, and the registered checks
 None of these changes is ever applied to /repo. To re-run one: `tools/seed_eval.sh <name> seeded/<name>/patch.diff
 seeded/<name>/demo.py "<property ids>"`; to re-run all of them: `tools/seed_all.sh` (`RESULTS.txt` holds its last complete pass, made after
 round 5b over the 80 changes kept then; the changes of rounds 6-9 were each evaluated, and re-evaluated after the
-check was strengthened, when they were kept - the verdict is in their `meta.json`).
+check was strengthened, when they were kept - the verdict is in their `meta.json`; `RESULTS_final_sample.txt` is a
+last re-evaluation, against the final checks, of 30 changes of rounds 1-5 that had once been missed: all caught).
 
 %d changes in nine rounds: round 1 has one per property (20); round 2 a second, different change for every property
 (20; the authors were told the earlier ideas so as to avoid them); rounds 3 and 4 (8 + 12, all twenty properties)
